@@ -95,6 +95,10 @@ def run_sequence(case, on_step=None):
         result = call(prefix, getattr(transform, fn), tree, **params)
         cur = snap(prefix, result)
         tree = result
+        if fn in ("negra_mark_heads", "mark_heads_by_rules") and not heads_ok(cur):
+            # the marker is what makes marker -> boyd_split / binarize a prerequisite-respecting sequence
+            raise violation(prefix + "/heads-not-established", "after the head marker some constituent has no head child or several (labels %r)"
+                            % (sorted(set(n["l"] for n in M.constituents(cur)))[:8],))
         # ---- sentence
         if [t["w"] for t in M.toks(cur)] != words:
             raise violation(prefix + "/words-changed", "%r" % ([t["w"] for t in M.toks(cur)],))
@@ -178,7 +182,7 @@ CHAINS = [["negra_mark_heads", "boyd_split", "raising"], ["root_attach", "negra_
 @st.composite
 def sequence_case(draw, max_tokens, max_ops):
     tree = draw(S.tree_model(max_tokens=max_tokens, disc=0.6, words=word_strategy(), max_arity=4,
-                             labels=st.sampled_from(["S", "NP", "VP", "PP", "X"]), pos=st.sampled_from(["NN", "VVFIN", "PRELS", "$,", "ART"]),
+                             labels=st.sampled_from(["S", "NP", "VP", "PP", "X", "CO", "DL", "PRN", "INTJ", "AP"]), pos=st.sampled_from(["NN", "VVFIN", "PRELS", "$,", "ART"]),
                              edges=st.sampled_from(["HD", "NK", "SB", "--"])))
     ops = []
     while len(ops) < max_ops:
